@@ -53,7 +53,7 @@ def _stats(ctx, dist, y, thr):
   return tp, fp, npos, nneg
 
 
-def calib_case(est_name, y, strategy):
+def calib_case(est_name, y, strategy, ordered=False):
   y = list(y)
   n = len(y)
 
@@ -61,6 +61,10 @@ def calib_case(est_name, y, strategy):
     s = ctx.real('s', n)
     for i in range(n):
       ctx.assume(ctx.ge(s[i], 0, tol=0.0))
+    if ordered:
+      # stated bound: the pairs are listed by non-decreasing distance (ties still free); every label vector is a separate case
+      for i in range(n - 1):
+        ctx.assume(ctx.le(s[i], s[i + 1], tol=0.0))
     est = mahal.fitted(est_name, np.array([[1.0]]))
     pairs = mahal.arr([[[0.0], [s[i]]] for i in range(n)])
     yv = np.array(y)
@@ -263,6 +267,25 @@ def cases(tier, seed):
                           % (n, list(y), {'accuracy': '', 'f_beta': 'beta arbitrary >= 0 (n<=3) or in {0,.5,1,2} (n>=4)', 'max_tpr': 'min_rate arbitrary in [0,1]',
                                           'max_tnr': 'min_rate arbitrary in [0,1]'}[strategy], g, rep),
                           tiers=tiers, cost=n ** 3, max_paths=100000, validate=8, hard_timeout_s=3000))
+    # larger validation sets, pairs listed by non-decreasing distance: runs of tied groups with the same label composition
+    # (collinear ROC points) need >= 6 pairs
+    for strategy in ('accuracy', 'f_beta', 'max_tpr', 'max_tnr'):
+      for n in (6, 7):
+        for y in _label_vectors(n):
+          quick6 = {'max_tpr': [(1, -1, 1, -1, 1, -1), (-1, 1, 1, -1, -1, 1)], 'max_tnr': [(1, -1, 1, -1, 1, -1), (1, -1, -1, 1, 1, -1)],
+                    'accuracy': [(1, -1, 1, -1, 1, -1)], 'f_beta': [(1, -1, 1, -1, 1, -1)]}[strategy]
+          if n == 6:
+            tiers = ('quick', 'thorough') if y in quick6 else ('thorough',)
+          else:
+            tiers = ('thorough',) if sum(1 for a, b in zip(y, y[1:]) if a != b) >= 5 else ()
+          if not tiers:
+            continue
+          out.append(case('%s_ordered_g%d_%s' % (strategy, gi, ''.join('p' if v == 1 else 'n' for v in y)),
+                          calib_case(rep, y, strategy, ordered=True), FUNCS,
+                          '%d validation pairs listed by non-decreasing distance (ties free) with labels %s, %s; group %s on %s'
+                          % (n, list(y), {'accuracy': '', 'f_beta': 'beta in {0,.5,1,2}', 'max_tpr': 'min_rate arbitrary in [0,1]',
+                                          'max_tnr': 'min_rate arbitrary in [0,1]'}[strategy], g, rep),
+                          tiers=tiers, cost=n ** 3, max_paths=100000, validate=8, hard_timeout_s=3000))
     out.append(case('float_boundary_g%d' % gi, float_boundary_case(rep), FUNCS,
                     'rates at exact decimal boundaries, 5/10 negatives or positives, min_rate = k/10 (concrete, sampled; not solver-decided)',
                     concrete_only=True, validate=1, cost=5))
@@ -281,7 +304,7 @@ LEVEL = ('Bounded symbolic execution of the real calibrate_threshold (and scikit
 ASSUME = ['distances are reals (|s_i| exactly); float rounding of rates is allowed for by a 1e-9 relative slack on the admissibility tests of max_tpr/max_tnr and on the F-beta comparison (a model must violate optimality robustly, not by a rounding-size margin)',
           'isinstance(x,(int,float)) is true for symbolic numbers (module-global substitution in base_metric)',
           'candidate cut-offs {d_1..d_n, reject-all} represent every threshold (predictions are piecewise constant in the threshold)']
-OUTSIDE = ['more than 5 validation pairs', 'float64 rounding of rates at exact boundaries (only sampled concretely in float_boundary_*)',
+OUTSIDE = ['more than 5 validation pairs in arbitrary order; more than 7 pairs listed by non-decreasing distance', 'float64 rounding of rates at exact boundaries (only sampled concretely in float_boundary_*)',
            'the fitted metric itself (components_ fixed to [[1]]: calibration only sees distances)']
 
 if __name__ == '__main__':
